@@ -1,4 +1,5 @@
 mod ctx;
+mod c04;
 mod c07;
 
 use ctx::{Ctx, Tier};
@@ -31,6 +32,7 @@ fn main() {
     let mut ctx = Ctx { prop: prop.clone(), tier, seed, out, shards, cases: Vec::new(), counters: BTreeMap::new(),
                         failures: Vec::new(), oracle_runs: 0, samples: Vec::new(), notes: Vec::new(), exhaustive: Vec::new() };
     match prop.as_str() {
+        "C04" => { c04::run(&mut ctx); ctx.finish("corr.C04", "run_C04"); }
         "C07" => { c07::run(&mut ctx); ctx.finish("corr.C07", "run_C07"); }
         _ => { eprintln!("unknown property {}", prop); std::process::exit(2); }
     }
